@@ -173,6 +173,9 @@ func Start(c *core.Ctx, o Opts) *World {
 		w.rDup = rates[t.Draw(len(rates))] / 2
 		w.rDrop = rates[t.Draw(len(rates))] / 3
 		w.steps = t.Range(o.MinSteps, o.MaxSteps)
+		if o.ConfigInvalid && t.Chance(1, 2) {
+			cfg.E = 1 // this run has no configuration supplied invalid hash: the invalid list can become empty
+		}
 		cfg.N = fmt.Sprintf("peers=%d reorder=%d dup=%d drop=%d steps=%d", w.peers, w.rReorder, w.rDup, w.rDrop, w.steps)
 	}
 	c.Record(cfg)
@@ -181,7 +184,7 @@ func Start(c *core.Ctx, o Opts) *World {
 	w.large = cfg.D >= 1
 	w.boundary = cfg.D == 2
 	w.cfg = &headers.Config{Network: bitcoin.MainNet, MaxBranchDepth: w.maxDepth}
-	if o.ConfigInvalid {
+	if o.ConfigInvalid && cfg.E != 1 {
 		w.cfg.InvalidHeaderHashes = []bitcoin.Hash32{configInvalidHash}
 	}
 	w.st = simstore.New()
